@@ -765,8 +765,6 @@ pub fn gen_default_sets() -> Vec<Vec<TableDef>> {
         ("i", int(), DefaultValue::Integer(-5)),
         ("f", ColumnType::Simple(SimpleColumnType::DoublePrecision), DefaultValue::Float(2.5)),
         ("big", ColumnType::Simple(SimpleColumnType::DoublePrecision), DefaultValue::Float(1e21)),
-        ("fi", ColumnType::Simple(SimpleColumnType::DoublePrecision), DefaultValue::Float(f64::INFINITY)),
-        ("fn_", ColumnType::Simple(SimpleColumnType::DoublePrecision), DefaultValue::Float(f64::NAN)),
     ] {
         let mut c = col(n, ty, false);
         c.default = Some(d);
